@@ -53,13 +53,20 @@ def run(chk, ctx, cases):
         vlib.save_good_model(FAMILY, exe)
     work = os.path.join(vlib.BUILD, 'work', chk.id.lower())
     os.makedirs(work, exist_ok=True)
-    path = os.path.join(work, 'cases-array-tie.txt')
+    # a file of its own per process: several checks of the same property may run at the same time
+    path = os.path.join(work, 'cases-array-tie-%d.txt' % os.getpid())
     with open(path, 'w') as f:
         for c in cases:
             f.write(c + '\n')
-    mouts, _ = vlib.run_model(exe, path, len(cases))
-    iouts, det = vlib.run_cases(ctx['impl_exe'], path, len(cases), env={'LV_CONT_B': '1'},
-                                timeout_per_run=getattr(chk, 'case_timeout', 600))
+    try:
+        mouts, _ = vlib.run_model(exe, path, len(cases))
+        iouts, det = vlib.run_cases(ctx['impl_exe'], path, len(cases), env={'LV_CONT_B': '1'},
+                                    timeout_per_run=getattr(chk, 'case_timeout', 600))
+    finally:
+        try:
+            os.unlink(path)
+        except OSError:
+            pass
     cut = det.get('truncated_at')
     n = len(cases) if cut is None else cut
     a_dis, b_dis = [], []
